@@ -4,7 +4,7 @@ namespace Afkak.ClientNet
 open Afkak.ClientCache
 
 /-- the request a timer belongs to -/
-def mrtbOf (t : Timer) : Option Nat := match t.what with | .mrtb k => some k | .boot _ => none
+def mrtbOf (t : Timer) : Option Nat := match t.what with | .mrtb k => some k | _ => none
 
 /-- reachable-state facts about requests and the timer queue:
     every unresolved request owns a pending timer due at its bound (`pendTimer`), every pending
@@ -49,8 +49,36 @@ theorem insertTimer_sorted (t : Timer) : ∀ (l : List Timer), l.Pairwise (fun a
       · exact Rat.not_lt.mp hnl
       · exact hx.1 y hy
 
-theorem NInv.issue {reqs : List Req} {timers : List Timer} (h : NInv reqs timers) (b : Nat) (issued due : Rat) (owner : ReqOwner) :
-    NInv (reqs ++ [{ k := reqs.length, b := b, issued := issued, due := due, owner := owner }])
+/-- a request that is born resolved (no-reply request written at once) needs no timer -/
+theorem NInv.issueResolved {reqs : List Req} {timers : List Timer} (h : NInv reqs timers) (q : Req)
+    (hk : q.k = reqs.length) (hp : q.pending = false) : NInv (reqs ++ [q]) timers := by
+  constructor
+  · intro x hx
+    simp only [List.length_append, List.length_singleton]
+    rcases List.mem_append.mp hx with hx | hx
+    · exact Nat.lt_succ_of_lt (h.kBound x hx)
+    · simp only [List.mem_singleton] at hx; subst hx; omega
+  · intro x hx x' hx' hkk
+    rcases List.mem_append.mp hx with hx | hx <;> rcases List.mem_append.mp hx' with hx' | hx'
+    · exact h.kUnique x hx x' hx' hkk
+    · simp only [List.mem_singleton] at hx'
+      have := h.kBound x hx; rw [hx', hk] at hkk; omega
+    · simp only [List.mem_singleton] at hx
+      have := h.kBound x' hx'; rw [hx, hk] at hkk; omega
+    · simp only [List.mem_singleton] at hx hx'; rw [hx, hx']
+  · intro x hx hpx
+    rcases List.mem_append.mp hx with hx | hx
+    · exact h.pendTimer x hx hpx
+    · simp only [List.mem_singleton] at hx; subst hx; rw [hp] at hpx; cases hpx
+  · intro t ht k hk'
+    obtain ⟨x, hx, h1, h2, h3⟩ := h.timerPend t ht k hk'
+    exact ⟨x, List.mem_append_left _ hx, h1, h2, h3⟩
+  · exact h.names
+  · exact h.sorted
+
+theorem NInv.issue {reqs : List Req} {timers : List Timer} (h : NInv reqs timers) (b : Nat) (issued due : Rat) (owner : ReqOwner)
+    (grp : Option String) :
+    NInv (reqs ++ [{ k := reqs.length, b := b, issued := issued, due := due, grp := grp, owner := owner }])
          (insertTimer { what := .mrtb reqs.length, due := due } timers) := by
   constructor
   · intro q hq
@@ -163,21 +191,32 @@ theorem NInv.mark {reqs : List Req} {timers : List Timer} (h : NInv reqs timers)
   · exact h.sorted
 
 /-- removing a timer that is not a request timer -/
-theorem NInv.dropBoot {reqs : List Req} {timers : List Timer} (h : NInv reqs timers) (j : Nat) :
-    NInv reqs (timers.filter (fun t => !(t.what == .boot j))) := by
+theorem NInv.dropOther {reqs : List Req} {timers : List Timer} (h : NInv reqs timers) (w : TimerWhat)
+    (hw : ∀ k, w ≠ .mrtb k) :
+    NInv reqs (timers.filter (fun t => !(t.what == w))) := by
   constructor
   · exact h.kBound
   · exact h.kUnique
   · intro q hq hp
-    exact List.mem_filter.mpr ⟨h.pendTimer q hq hp, by simp⟩
+    refine List.mem_filter.mpr ⟨h.pendTimer q hq hp, ?_⟩
+    have : (TimerWhat.mrtb q.k == w) = false := by
+      rw [Bool.eq_false_iff]; intro hh
+      have he : TimerWhat.mrtb q.k = w := by simpa using hh
+      exact hw q.k he.symm
+    simp [this]
   · intro t ht k hk
     exact h.timerPend t (List.mem_filter.mp ht).1 k hk
   · exact h.names.sublist (List.Sublist.filterMap _ List.filter_sublist)
   · exact h.sorted.sublist List.filter_sublist
 
 /-- arming the bootstrap `addTimeout` timer -/
-theorem NInv.addBoot {reqs : List Req} {timers : List Timer} (h : NInv reqs timers) (j : Nat) (due : Rat) :
-    NInv reqs (insertTimer { what := .boot j, due := due } timers) := by
+theorem NInv.addOther {reqs : List Req} {timers : List Timer} (h : NInv reqs timers) (w : TimerWhat) (due : Rat)
+    (hw : ∀ k, w ≠ .mrtb k) :
+    NInv reqs (insertTimer { what := w, due := due } timers) := by
+  have hm : mrtbOf { what := w, due := due } = none := by
+    unfold mrtbOf; split
+    · rename_i k hk; exact absurd hk (hw k)
+    · rfl
   constructor
   · exact h.kBound
   · exact h.kUnique
@@ -185,11 +224,11 @@ theorem NInv.addBoot {reqs : List Req} {timers : List Timer} (h : NInv reqs time
     exact mem_insertTimer.mpr (Or.inr (h.pendTimer q hq hp))
   · intro t ht k hk
     rcases mem_insertTimer.mp ht with rfl | ht
-    · cases hk
+    · exact absurd hk (hw k)
     · exact h.timerPend t ht k hk
-  · have hp := (insertTimer_perm { what := .boot j, due := due } timers).filterMap mrtbOf
+  · have hp := (insertTimer_perm { what := w, due := due } timers).filterMap mrtbOf
     refine (List.Perm.nodup_iff hp).mpr ?_
-    simpa [List.filterMap_cons, mrtbOf] using h.names
+    simpa [List.filterMap_cons, hm] using h.names
   · exact insertTimer_sorted _ _ h.sorted
 
 
@@ -235,7 +274,8 @@ theorem core_getBrokerClient {st st' : St} {n : Int} {b : Nat} {obs : List Ob}
 
 /-- actions that never touch requests or timers -/
 def Act.quiet : Act → Bool
-  | .fireReq .. | .timeoutFired .. | .unawareNext .. | .issueSlot .. | .srtcGo .. | .bootResult .. => false
+  | .fireReq .. | .timeoutFired .. | .unawareNext .. | .issueSlot .. | .srtcGo .. | .bootResult ..
+  | .ltpMerged .. | .cancelDelay .. => false
   | _ => true
 
 theorem exec_quiet (cfg : Cfg) (st : St) (a : Act) (hq : a.quiet = true) : core (exec cfg st a).1 = core st := by
@@ -247,6 +287,7 @@ theorem exec_quiet (cfg : Cfg) (st : St) (a : Act) (hq : a.quiet = true) : core 
     | rfl
     | (rename_i hs; exact core_shuffle hs)
     | exact core_cloadJoin _ _ _
+    | exact core_reqDone _ _ _ _
     | (simp [core]; done)
     | (simp_all [core]; done))
 
@@ -297,7 +338,9 @@ theorem exec_makeRequest_site (cfg : Cfg) (st : St) (b : Nat) (owner : ReqOwner)
   obtain ⟨_, hreqs, htim, _, _⟩ := makeRequest_spec cfg st b owner e w m
   unfold SInv
   rw [hreqs, htim]
-  exact NInv.issue h b st.now _ owner
+  cases hs : syncFire st b e with
+  | true => simp only [Bool.not_true, if_true]; exact NInv.issueResolved h _ rfl rfl
+  | false => simp only [Bool.not_false, Bool.false_eq_true, if_false]; exact NInv.issue h b st.now _ owner _
 
 theorem exec_unawareNext (cfg : Cfg) (st : St) (u : Nat) (nodes : List Int) (h : SInv st) :
     SInv (exec cfg st (.unawareNext u nodes)).1 := by
@@ -344,7 +387,23 @@ theorem exec_bootResult (cfg : Cfg) (st : St) (j : Nat) (r : Res) (h : SInv st) 
   all_goals (try dsimp only)
   all_goals (first
     | exact h
-    | exact NInv.dropBoot h j)
+    | exact NInv.dropOther h (.boot j) (fun k hh => by cases hh))
+
+theorem exec_ltpMerged (cfg : Cfg) (st : St) (l : Nat) (ts : List TopicMeta) (h : SInv st) : SInv (exec cfg st (.ltpMerged l ts)).1 := by
+  simp only [exec]
+  repeat' split
+  all_goals (try dsimp only)
+  all_goals (first
+    | exact h
+    | exact NInv.addOther h (.retry l) _ (fun k hh => by cases hh))
+
+theorem exec_cancelDelay (cfg : Cfg) (st : St) (l : Nat) (h : SInv st) : SInv (exec cfg st (.cancelDelay l)).1 := by
+  simp only [exec]
+  repeat' split
+  all_goals (try dsimp only)
+  all_goals (first
+    | exact h
+    | exact NInv.dropOther h (.retry l) (fun k hh => by cases hh))
 
 /-- every action except the firing of a request timer (which needs its timer popped first) -/
 def Act.notTimeout : Act → Bool
@@ -361,6 +420,8 @@ theorem exec_inv (cfg : Cfg) (st : St) (a : Act) (hn : a.notTimeout = true) (h :
       | exact exec_bootResult cfg st _ _ h
       | exact exec_issueSlot cfg st _ _ h
       | exact exec_srtcGo cfg st _ h
+      | exact exec_ltpMerged cfg st _ _ h
+      | exact exec_cancelDelay cfg st _ h
       | (simp [Act.quiet] at hq; done)
       | (simp [Act.notTimeout] at hn; done))
 
@@ -423,7 +484,7 @@ structure NInvX (k : Nat) (reqs : List Req) (timers : List Timer) : Prop where
   isPending : ∃ q ∈ reqs, q.k = k ∧ q.pending = true
 
 theorem NInv.pop {reqs : List Req} {t : Timer} {rest : List Timer} (h : NInv reqs (t :: rest)) :
-    (∀ k, t.what = .mrtb k → NInvX k reqs rest) ∧ (∀ j, t.what = .boot j → NInv reqs rest) := by
+    (∀ k, t.what = .mrtb k → NInvX k reqs rest) ∧ ((∀ k, t.what ≠ .mrtb k) → NInv reqs rest) := by
   constructor
   · intro k hk
     have hnames := h.names
@@ -441,13 +502,16 @@ theorem NInv.pop {reqs : List Req} {t : Timer} {rest : List Timer} (h : NInv req
       intro heq; subst heq
       apply hnames.1
       exact List.mem_filterMap.mpr ⟨t', ht', by simp [mrtbOf, hk']⟩
-  · intro j hj
-    have hm : mrtbOf t = none := by simp [mrtbOf, hj]
+  · intro hj
+    have hm : mrtbOf t = none := by
+      unfold mrtbOf; split
+      · rename_i k hk; exact absurd hk (hj k)
+      · rfl
     refine ⟨h.kBound, h.kUnique, ?_, ?_, ?_, (List.pairwise_cons.mp h.sorted).2⟩
     · intro q hq hp
       have := h.pendTimer q hq hp
       rcases List.mem_cons.mp this with heq | hin
-      · rw [← heq] at hj; cases hj
+      · exact absurd (by rw [← heq]) (hj q.k)
       · exact hin
     · intro t' ht' k hk
       exact h.timerPend t' (List.mem_cons_of_mem _ ht') k hk
@@ -507,14 +571,17 @@ theorem fireDue_inv (cfg : Cfg) : ∀ (n : Nat) (st : St) (obs : List Ob), SInv 
         have hpop := NInv.pop (show NInv st.reqs (t :: rest) by rw [← ht]; exact h)
         cases hw : t.what with
         | mrtb k =>
-          simp only [fuel]
+          simp only [fuel, timerAct]
           simp only [runActs]
           have hx : NInvX k ({ st with timers := rest } : St).reqs ({ st with timers := rest } : St).timers := hpop.1 k hw
           apply runActs_inv cfg _ _ _ _ (exec_timeoutFired cfg _ k hx)
           rw [List.append_nil]; exact exec_acts cfg _ _
         | boot j =>
-          have hx : SInv ({ st with timers := rest } : St) := hpop.2 j hw
-          exact runActs_inv cfg _ _ _ _ hx (by simp [Act.notTimeout])
+          have hx : SInv ({ st with timers := rest } : St) := hpop.2 (fun k hh => by rw [hw] at hh; cases hh)
+          exact runActs_inv cfg _ _ _ _ hx (by simp [Act.notTimeout, timerAct])
+        | retry l =>
+          have hx : SInv ({ st with timers := rest } : St) := hpop.2 (fun k hh => by rw [hw] at hh; cases hh)
+          exact runActs_inv cfg _ _ _ _ hx (by simp [Act.notTimeout, timerAct])
 
 theorem cancelOp_inv (st : St) (o : Nat) : core (cancelOp st o).1 = core st ∧ (cancelOp st o).2.2.all Act.notTimeout = true := by
   unfold cancelOp
@@ -545,7 +612,7 @@ theorem step_inv (cfg : Cfg) (st : St) (env : Env) (e : Ev) (h : SInv st) : SInv
     split
     · exact h
     · dsimp only
-      exact NInv.addBoot h j _
+      exact NInv.addOther h (.boot j) _ (fun k hh => by cases hh)
   case cload o g =>
     simp only [step]
     exact runActs_inv cfg _ _ _ _ (SInv_of_core h' (core_cloadJoin _ _ _)) (cloadJoin_acts _ _ _)
@@ -557,14 +624,26 @@ theorem step_inv (cfg : Cfg) (st : St) (env : Env) (e : Ev) (h : SInv st) : SInv
   case close o =>
     simp only [step]
     split
-    · exact h
+    · split
+      · exact runActs_inv cfg _ _ _ _ h (by simp [Act.notTimeout])
+      · exact h
     · refine runActs_inv cfg _ _ _ _ (show SInv _ from h) ?_
-      rw [List.all_append, List.all_map]
-      simp only [Bool.and_eq_true]
-      exact ⟨List.all_eq_true.mpr (fun _ _ => rfl), by simp [Act.notTimeout]⟩
+      apply List.all_eq_true.mpr
+      intro a ha
+      simp only [List.mem_append, List.mem_map, List.mem_cons, List.mem_nil_iff, or_false] at ha
+      rcases ha with ((⟨b, _, rfl⟩ | rfl | rfl) | ha) | rfl
+      · rfl
+      · rfl
+      · rfl
+      · split at ha
+        · simp only [List.mem_singleton] at ha; subst ha; rfl
+        · cases ha
+      · rfl
   case send o keys group foe expect =>
     simp only [step]
-    split <;> exact runActs_inv cfg _ _ _ _ h (by simp [Act.notTimeout])
+    split
+    · exact runActs_inv cfg _ _ _ _ h (by simp [Act.notTimeout])
+    · split <;> exact runActs_inv cfg _ _ _ _ h (by simp [Act.notTimeout])
   case bootFail j =>
     simp only [step]
     split
@@ -609,7 +688,7 @@ theorem le_add_nonneg (a b : Rat) (hb : 0 ≤ b) : a ≤ a + b := by
   simpa [Rat.add_zero] using this
 
 /-- timers an action leaves behind are old ones or are due no earlier than now; `now` is untouched -/
-theorem exec_timers (cfg : Cfg) (h0 : 0 ≤ cfg.timeout) (st : St) (a : Act) :
+theorem exec_timers (cfg : Cfg) (h0 : 0 ≤ cfg.timeout) (h1 : 0 ≤ cfg.retryDelay) (st : St) (a : Act) :
     (exec cfg st a).1.now = st.now ∧ ∀ t ∈ (exec cfg st a).1.timers, t ∈ st.timers ∨ st.now ≤ t.due := by
   have hmr : ∀ (st1 : St) b o e w m, (makeRequest cfg st1 b o e w m).1.now = st1.now ∧
       ∀ t ∈ (makeRequest cfg st1 b o e w m).1.timers, t ∈ st1.timers ∨ st1.now ≤ t.due := by
@@ -618,9 +697,11 @@ theorem exec_timers (cfg : Cfg) (h0 : 0 ≤ cfg.timeout) (st : St) (a : Act) :
     refine ⟨hnow, ?_⟩
     intro t ht
     rw [htim] at ht
-    rcases mem_insertTimer.mp ht with rfl | ht
-    · right; exact le_add_nonneg _ _ (boundOf_nonneg cfg h0 m)
+    split at ht
     · left; exact ht
+    · rcases mem_insertTimer.mp ht with rfl | ht
+      · right; exact le_add_nonneg _ _ (boundOf_nonneg cfg h0 m)
+      · left; exact ht
   have hgb : ∀ {st st' : St} {n : Int} {b : Nat} {obs : List Ob}, getBrokerClient st n = .ok (st', b, obs) →
       st'.now = st.now ∧ st'.timers = st.timers := by
     intro st st' n b obs hg
@@ -653,6 +734,7 @@ theorem exec_timers (cfg : Cfg) (h0 : 0 ≤ cfg.timeout) (st : St) (a : Act) :
             obtain ⟨_, _, heq⟩ := hs
             cases heq; rfl))
       | (unfold cloadJoin; split <;> rfl)
+      | (unfold reqDone; split <;> (try split) <;> (try split) <;> rfl)
       | (simp_all; done))
   · cases a <;> simp only [Act.quiet] at hq
     case fireReq k r n =>
@@ -762,9 +844,26 @@ theorem exec_timers (cfg : Cfg) (h0 : 0 ≤ cfg.timeout) (st : St) (a : Act) :
       all_goals (first
         | exact ⟨rfl, fun t ht => Or.inl ht⟩
         | exact ⟨rfl, fun t ht => Or.inl (hsub _ t ht)⟩)
+    case ltpMerged l ts =>
+      simp only [exec]
+      repeat' split
+      all_goals (try dsimp only)
+      all_goals (first
+        | exact ⟨rfl, fun t ht => Or.inl ht⟩
+        | (refine ⟨rfl, fun t ht => ?_⟩
+           rcases mem_insertTimer.mp ht with rfl | ht
+           · right; exact le_add_nonneg _ _ h1
+           · left; exact ht))
+    case cancelDelay l =>
+      simp only [exec]
+      repeat' split
+      all_goals (try dsimp only)
+      all_goals (first
+        | exact ⟨rfl, fun t ht => Or.inl ht⟩
+        | exact ⟨rfl, fun t ht => Or.inl (hsub _ t ht)⟩)
     all_goals (exact absurd trivial hq)
 
-theorem runActs_timers (cfg : Cfg) (h0 : 0 ≤ cfg.timeout) : ∀ (fuel : Nat) (st : St) (acts : List Act) (obs : List Ob),
+theorem runActs_timers (cfg : Cfg) (h0 : 0 ≤ cfg.timeout) (h1 : 0 ≤ cfg.retryDelay) : ∀ (fuel : Nat) (st : St) (acts : List Act) (obs : List Ob),
     (runActs cfg fuel st acts obs).1.now = st.now ∧
     ∀ t ∈ (runActs cfg fuel st acts obs).1.timers, t ∈ st.timers ∨ st.now ≤ t.due
   | 0, st, acts, obs => by
@@ -775,16 +874,16 @@ theorem runActs_timers (cfg : Cfg) (h0 : 0 ≤ cfg.timeout) : ∀ (fuel : Nat) (
     rw [this]; exact ⟨rfl, fun t ht => Or.inl ht⟩
   | fuel+1, st, a :: rest, obs => by
     simp only [runActs]
-    obtain ⟨e1, e2⟩ := exec_timers cfg h0 st a
-    obtain ⟨r1, r2⟩ := runActs_timers cfg h0 fuel (exec cfg st a).1 ((exec cfg st a).2.2 ++ rest) (obs ++ (exec cfg st a).2.1)
+    obtain ⟨e1, e2⟩ := exec_timers cfg h0 h1 st a
+    obtain ⟨r1, r2⟩ := runActs_timers cfg h0 h1 fuel (exec cfg st a).1 ((exec cfg st a).2.2 ++ rest) (obs ++ (exec cfg st a).2.1)
     refine ⟨r1.trans e1, fun t ht => ?_⟩
     rcases r2 t ht with h | h
     · exact e2 t h
     · right; rw [← e1]; exact h
 
-theorem runActs_notOverdue (cfg : Cfg) (h0 : 0 ≤ cfg.timeout) (fuel : Nat) (st : St) (acts : List Act) (obs : List Ob)
+theorem runActs_notOverdue (cfg : Cfg) (h0 : 0 ≤ cfg.timeout) (h1 : 0 ≤ cfg.retryDelay) (fuel : Nat) (st : St) (acts : List Act) (obs : List Ob)
     (h : NotOverdue st) : NotOverdue (runActs cfg fuel st acts obs).1 := by
-  obtain ⟨r1, r2⟩ := runActs_timers cfg h0 fuel st acts obs
+  obtain ⟨r1, r2⟩ := runActs_timers cfg h0 h1 fuel st acts obs
   intro t ht
   rw [r1]
   rcases r2 t ht with h' | h'
@@ -815,16 +914,19 @@ theorem fireDue_exit (cfg : Cfg) : ∀ (n : Nat) (st : St) (obs : List Ob), SInv
         have hpop := NInv.pop (show NInv st.reqs (t :: rest) by rw [← ht]; exact h)
         cases hw : t.what with
         | mrtb k =>
-          simp only [fuel, runActs]
+          simp only [fuel, runActs, timerAct]
           have hx : NInvX k ({ st with timers := rest } : St).reqs ({ st with timers := rest } : St).timers := hpop.1 k hw
           apply runActs_inv cfg _ _ _ _ (exec_timeoutFired cfg _ k hx)
           rw [List.append_nil]; exact exec_acts cfg _ _
         | boot j =>
-          have hx : SInv ({ st with timers := rest } : St) := hpop.2 j hw
-          exact runActs_inv cfg _ _ _ _ hx (by simp [Act.notTimeout])
+          have hx : SInv ({ st with timers := rest } : St) := hpop.2 (fun k hh => by rw [hw] at hh; cases hh)
+          exact runActs_inv cfg _ _ _ _ hx (by simp [Act.notTimeout, timerAct])
+        | retry l =>
+          have hx : SInv ({ st with timers := rest } : St) := hpop.2 (fun k hh => by rw [hw] at hh; cases hh)
+          exact runActs_inv cfg _ _ _ _ hx (by simp [Act.notTimeout, timerAct])
 
 /-- a step that is not a clock advance keeps "nothing overdue" -/
-theorem step_notOverdue (cfg : Cfg) (h0 : 0 ≤ cfg.timeout) (st : St) (env : Env) (e : Ev)
+theorem step_notOverdue (cfg : Cfg) (h0 : 0 ≤ cfg.timeout) (h1 : 0 ≤ cfg.retryDelay) (st : St) (env : Env) (e : Ev)
     (hne : ∀ dt, e ≠ .advance dt) (h : NotOverdue st) : NotOverdue (step cfg st env e).1 := by
   have h' : NotOverdue ({ st with env := env } : St) := h
   cases e
@@ -832,7 +934,7 @@ theorem step_notOverdue (cfg : Cfg) (h0 : 0 ≤ cfg.timeout) (st : St) (env : En
   case cancel o =>
     simp only [step]
     have hc := cancelOp_inv { st with env := env } o
-    apply runActs_notOverdue cfg h0
+    apply runActs_notOverdue cfg h0 h1
     intro t ht
     have h1 : (cancelOp { st with env := env } o).1.timers = st.timers := congrArg Prod.snd hc.1
     have h2 : (cancelOp { st with env := env } o).1.now = st.now := by
@@ -851,7 +953,7 @@ theorem step_notOverdue (cfg : Cfg) (h0 : 0 ≤ cfg.timeout) (st : St) (env : En
       · exact h t ht
   case cload o g =>
     simp only [step]
-    apply runActs_notOverdue cfg h0
+    apply runActs_notOverdue cfg h0 h1
     have hc := core_cloadJoin { st with env := env, liveOps := st.liveOps ++ [o] } (.api o) g
     intro t ht
     have h1 : (cloadJoin { st with env := env, liveOps := st.liveOps ++ [o] } (.api o) g).1.timers = st.timers := congrArg Prod.snd hc
@@ -861,8 +963,8 @@ theorem step_notOverdue (cfg : Cfg) (h0 : 0 ≤ cfg.timeout) (st : St) (env : En
   case srtc o g m =>
     simp only [step]
     split
-    · exact runActs_notOverdue cfg h0 _ _ _ _ h
-    · apply runActs_notOverdue cfg h0
+    · exact runActs_notOverdue cfg h0 h1 _ _ _ _ h
+    · apply runActs_notOverdue cfg h0 h1
       intro t ht
       have hc := core_cloadJoin { st with env := env, liveOps := st.liveOps ++ [o], srtcs := st.srtcs ++ [{ r := st.srtcs.length, o := o, g := g, minTimeout := m, phase := .resolving }] } (.srtc st.srtcs.length) g
       have h1 : (cloadJoin { st with env := env, liveOps := st.liveOps ++ [o], srtcs := st.srtcs ++ [{ r := st.srtcs.length, o := o, g := g, minTimeout := m, phase := .resolving }] } (.srtc st.srtcs.length) g).1.timers = st.timers := congrArg Prod.snd hc
@@ -872,19 +974,23 @@ theorem step_notOverdue (cfg : Cfg) (h0 : 0 ≤ cfg.timeout) (st : St) (env : En
   case close o =>
     simp only [step]
     split
-    · exact h
-    · exact runActs_notOverdue cfg h0 _ _ _ _ h
+    · split
+      · exact runActs_notOverdue cfg h0 h1 _ _ _ _ h
+      · exact h
+    · exact runActs_notOverdue cfg h0 h1 _ _ _ _ h
   case send o keys group foe expect =>
     simp only [step]
-    split <;> exact runActs_notOverdue cfg h0 _ _ _ _ h
+    split
+    · exact runActs_notOverdue cfg h0 h1 _ _ _ _ h
+    · split <;> exact runActs_notOverdue cfg h0 h1 _ _ _ _ h
   case bootFail j =>
     simp only [step]
     split
     · exact h
-    · exact runActs_notOverdue cfg h0 _ _ _ _ h
+    · exact runActs_notOverdue cfg h0 h1 _ _ _ _ h
   case conn b v => simp only [step]; exact h
   case resetTopics ts => simp only [step]; exact h
-  all_goals (simp only [step]; exact runActs_notOverdue cfg h0 _ _ _ _ h)
+  all_goals (simp only [step]; exact runActs_notOverdue cfg h0 h1 _ _ _ _ h)
 
 /-- a clock advance fires everything due: afterwards every pending timer is strictly in the future -/
 theorem step_advance_exit (cfg : Cfg) (st : St) (env : Env) (dt : Rat) (hdt : 0 ≤ dt) (h : SInv st) :
